@@ -414,7 +414,7 @@ def check(prop: str, tier: str, evidence_text: dict) -> int:
                 detail["broken_clauses"] = c11_problems(v["content"], v["outcome"])
             report.add(v["key"], {"size": len(v["content"]), "summary": detail})
             cur = examples.get(v["key"])
-            if cur is None or len(v["content"]) < len(cur["content"]):
+            if cur is None or (len(v["content"]), v["content"], v["entry"]) < (len(cur["content"]), cur["content"], cur["entry"]):
                 examples[v["key"]] = v
     run_s = time.monotonic() - tr
     shutil.rmtree(flag_dir, ignore_errors=True)
